@@ -90,3 +90,13 @@ _esc_unit("latex_tt_delims", "h_tt_delims", "latex.c", ["mmd_export_token_latex_
 #   printf 'a `x ~> y` b\n' | multimarkdown -t latex   ->   a \texttt{x ~> y} b
 _esc_unit("latex_tt_tilde", "h_tt_tilde", "latex.c", ["mmd_export_token_latex_tt"], 72, props=("C04",), kind="bounded", tier="quick",
           bounds={"tokens in tree": 1, "token type": "concrete per call"}, defines=["-DW=2"], assumptions=[_LEX], spec="C04/leaf.c")
+
+# 2d. call-trace contract of the string printers (bounded length, robust against loop restructuring)
+for _s, _file, _fn, _ch, _def, _props in (("html", "html.c", "mmd_print_string_html", "mmd_print_char_html", "-DSC_HTML", ["C04", "C08"]),
+                                          ("latex", "latex.c", "mmd_print_string_latex", "mmd_print_char_latex", "-DSC_LATEX", ["C04"]),
+                                          ("odf", "opendocument-content.c", "mmd_print_string_opendocument", "mmd_print_char_opendocument", "-DSC_ODF", ["C04", "C08"])):
+    U("str_calls_" + _s, _props, "h_str_calls", ["C04/str_calls.c"], [_file], plain=True, lib=(), kind="bounded", drop_bodies=[_ch],
+      defines=["-DI18N_DISABLED=1", _def], cbmc_flags=["--unwind", "8", "--unwinding-assertions", "--object-bits", "10"],
+      bounds={"string length<=": 5, "bytes": "full domain", "unwind": 8}, functions=[_fn],
+      callees={_ch: "contract stub recording the call trace (its own contract: esc_char_*)", "d_string_*": "contract stubs with precondition false (not called by the string printer)"},
+      min_obligations=8, timeout=300, cost=5, assumptions=["configuration -DI18N_DISABLED"])
